@@ -72,6 +72,8 @@ func runC19(c *Ctx) {
 	// pooled memory must not stay reachable from results: a recycled buffer is shared state
 	c17UnsafeViews(c)
 	c17Selection(c)
+	// a pooled Writer is scrubbed by Reset: whatever it keeps is shared between sessions
+	c18Writer(c)
 }
 
 func c19Globals(c *Ctx) {
